@@ -1,11 +1,23 @@
 ------------------------------ MODULE AccessMCBig ------------------------------
-(* The full product of the token dimensions (about 1e6 sessions); kept apart because TLC
-   evaluates every constant definition of the root module at start-up. *)
+(* The full product of the token dimensions at their decisive values (103 680 sessions); kept
+   apart because TLC evaluates every constant definition of the root module at start-up.  The
+   finer time grid (every edge -6/-5/-4/0/+4/+5/+6 s x clock fraction) is crossed with every
+   deviation of up to three dimensions in the families tok / tok_big of AccessMC. *)
 EXTENDS AccessMC
+FullDims == [alg    |-> {"EdDSA", "HS256", "none"},
+             kind   |-> {"token", ""},
+             kid    |-> {"k1", "k2", "kx", "", "#"},
+             signer |-> {"k1", "k2", "kx"},
+             tamper |-> {"none", "payload"},
+             iss    |-> {"vkuth", "other", ""},
+             user   |-> {"alice", "svc", ""},
+             nbf    |-> {NoTime, 0, 5000, 6000},
+             iat    |-> {NoTime, 0, 5000, 6000},
+             exp    |-> {NoTime, -5000, -4000, 60000}]
 TokFull == {Fix([alg |-> a, kind |-> kd, kid |-> ki, signer |-> sg, tamper |-> tp, iss |-> is, user |-> us,
                  service |-> FALSE, nbf |-> nb, iat |-> ia, exp |-> ex, bits |-> Good.bits]) :
-            a \in TokDims.alg, kd \in TokDims.kind, ki \in TokDims.kid, sg \in TokDims.signer,
-            tp \in TokDims.tamper, is \in TokDims.iss, us \in TokDims.user,
-            nb \in TokDims.nbf, ia \in TokDims.iat, ex \in TokDims.exp}
-MCSessionsFull == TokSess(TokFull, "tok_full")
+            a \in FullDims.alg, kd \in FullDims.kind, ki \in FullDims.kid, sg \in FullDims.signer,
+            tp \in FullDims.tamper, is \in FullDims.iss, us \in FullDims.user,
+            nb \in FullDims.nbf, ia \in FullDims.iat, ex \in FullDims.exp}
+MCSessionsFull == {[mode |-> "token", tok |-> t, prot |-> {}, now |-> 0, ep |-> "query", fam |-> "tok_full"] : t \in TokFull}
 ===============================================================================
